@@ -37,6 +37,8 @@ type CIn struct {
 	Kind string `json:"kind"` // ses data bad eof
 	Ses  *CSes  `json:"ses,omitempty"`
 	Sub  string `json:"sub,omitempty"` // data: "" a message, ping a GET /ping request command, not a notification, resp a response command
+	// Glued: written in the same segment as the item before it, without waiting for the server's answer
+	Glued bool `json:"glued,omitempty"`
 }
 
 func (c CIn) Coq() string {
@@ -738,7 +740,8 @@ func (s *scriptServer) run(script []CIn) *SObs {
 		return ok
 	}
 	settle()
-	for _, in := range script {
+	for idx := 0; idx < len(script); idx++ {
+		in := script[idx]
 		cl.mu.Lock()
 		eof := cl.eof
 		conn := cl.conn
@@ -764,6 +767,16 @@ func (s *scriptServer) run(script []CIn) *SObs {
 		cl.wire = append(cl.wire, WEv{Took: true, In: &inCopy})
 		cl.mu.Unlock()
 		s.record(SCall{Kind: "took", In: &inCopy})
+		// items glued to this one go out in the same write
+		for idx+1 < len(script) && script[idx+1].Glued && script[idx+1].Kind != "eof" {
+			idx++
+			g := script[idx]
+			line = append(line, cl.line(g)...)
+			cl.mu.Lock()
+			cl.wire = append(cl.wire, WEv{Took: true, In: &g})
+			cl.mu.Unlock()
+			s.record(SCall{Kind: "took", In: &g})
+		}
 		if _, err := conn.Write(line); err != nil {
 			break
 		}
